@@ -566,6 +566,9 @@ func (w *World) Violate(sig, format string, a ...any) {
 
 func (w *World) DB() *sql.DB { return w.db }
 
+// API is the real api queue object the front ends talk to (it changes on restart).
+func (w *World) API() api.API { return w.api }
+
 func (w *World) totalChanges() int64 {
 	var n int64
 	if err := w.db.QueryRow("SELECT total_changes()").Scan(&n); err != nil {
